@@ -186,7 +186,6 @@ fn replay(path: &str) -> i32 {
         };
     }
     runner::install_panic_hook();
-    runner::start_watchdog();
     let tier = if v["tier"].as_str() == Some("thorough") { Tier::Thorough } else { Tier::Quick };
     let ctx = Ctx {
         property: prop.clone(),
@@ -194,7 +193,21 @@ fn replay(path: &str) -> i32 {
         seed: v["verif_seed"].as_u64().unwrap_or(20261002),
         profile: v["profile"].as_str().unwrap_or("checked").to_string(),
     };
-    match engine.replay(&ctx, &v["case"]) {
+    runner::set_hang_secs(engine.hang_secs());
+    runner::set_case_secs(engine.case_secs(&ctx));
+    runner::start_watchdog();
+    // a case that could only be identified by its index (worker crash without a call
+    // number, case budget exceeded): run that whole case again under the watchdog
+    let whole_case = v["case"]["rerun_case_index"].as_u64().filter(|_| v["case"]["kind"].is_null());
+    let outcome = match whole_case {
+        Some(idx) => {
+            println!("replay: re-running case {idx} ({}) of {prop} under the watchdog", engine.describe(&ctx, idx as usize));
+            runner::CASE_SEQ.fetch_add(1, std::sync::atomic::Ordering::Relaxed);
+            Ok(engine.run_case(&ctx, idx as usize).violations)
+        }
+        None => engine.replay(&ctx, &v["case"]),
+    };
+    match outcome {
         Err(e) => {
             eprintln!("HARNESS-ERROR: {e}");
             2
